@@ -504,6 +504,39 @@ func jobC11(c *rt.Ctx) {
 			}
 		}
 	}
+	// the exported Basepoint slice in the SCALAR position (the bytes 09 00..00 used as a scalar), with
+	// ordinary, special and low-order points: it is a scalar like any other
+	c.Require("basepoint-as-scalar")
+	{
+		pts := [][]byte{le32(big.NewInt(9)), Basepoint, make([]byte, 32), le32(big.NewInt(1))}
+		for i := 0; i < 6; i++ {
+			h := sha512.Sum512([]byte{0xC7, byte(i)})
+			pts = append(pts, h[:32])
+		}
+		for pi, pt := range pts {
+			if !c.Take() {
+				continue
+			}
+			c.Class("basepoint-as-scalar")
+			c.Distinct(fmt.Sprintf("bp-scalar %d", pi), true)
+			want := ref.X25519(nine, pt)
+			zero := bytes.Equal(want, make([]byte, 32))
+			for _, sc := range [][]byte{Basepoint, Basepoint[:32:32], append([]byte{}, nine...)} {
+				out, err := X25519(sc, pt)
+				c.Step(1)
+				bad := false
+				if zero {
+					bad = err == nil || out != nil
+				} else {
+					bad = err != nil || !bytes.Equal(out, want)
+				}
+				if bad {
+					c.Violation("C11 basepoint-as-scalar", fmt.Sprintf("X25519(Basepoint as scalar, %x) = %x, %v; RFC 7748: %x", pt, out, err, want), map[string]interface{}{"point": ref.Hex(pt)})
+					break
+				}
+			}
+		}
+	}
 	// in-place calls of the array functions: the output array is also the point (the natural way to
 	// write the RFC 7748 iteration) or the scalar
 	c.Require("array-aliasing")
